@@ -15,6 +15,7 @@ const (
 	opADD          = 0x01
 	opSUB          = 0x03
 	opDIV          = 0x04
+	opGT           = 0x11
 	opISZERO       = 0x15
 	opCALLDATASIZE = 0x36
 	opCODECOPY     = 0x39
@@ -275,9 +276,9 @@ func (n *node) String() string {
 
 const (
 	nSlots     = 4
-	logDataOff = 0x400
-	zeroOff    = 0x600
-	initOff    = 0x800
+	logDataOff = 0x1000
+	zeroOff    = 0x1400
+	initOff    = 0x1800
 	satGas     = uint64(1) << 50
 	maxCode    = 245760 // vm.MaxCodeSize
 	depositGas = 6000   // CreateDataGas(200) x GasMagnification(30) per byte
@@ -403,6 +404,9 @@ func budget(n *node, predFail func(*node) bool) uint64 {
 }
 
 // ---------- compiler ----------
+
+// guardDeposit is set iff F-C12-b is listed as known.
+var guardDeposit bool
 
 type compiler struct {
 	installs map[common.Address][]byte
@@ -530,6 +534,14 @@ func (c *compiler) body(n *node) []byte {
 	switch n.out {
 	case oReturn:
 		if n.kind.creates() {
+			if guardDeposit {
+				// steering around F-C12-b: never attempt a code deposit that cannot be paid (fail cleanly instead)
+				a.push(uint64(n.deposit)*depositGas + 30_000)
+				a.op(opGAS, opGT)
+				a.pushLabel("pay")
+				a.op(opJUMPI, opINVALID)
+				a.label("pay")
+			}
 			a.push(uint64(n.deposit))
 			a.push(uint64(n.id))
 		} else {
